@@ -24,6 +24,11 @@ import numpy as np
 # classes whose configurations may legitimately yield no operator presented as linear (then nothing is to be checked)
 OPTIONAL_CLASSES = {"CalculusMixed"}
 
+# classes traced with these views only (keeps the quick tier short)
+VIEWS_ONLY = {"DtypeSweep": ["eval", "adj"], "WrappedOptions": ["eval", "adj"], "NoJit": ["eval", "adj", "gram"]}
+# hand-made grids of which the quick tier takes a seeded share (the thorough tier takes them whole)
+QUICK_SHARE = {"DtypeSweep": 0.4}
+
 # slugs of the `known:` findings of C06 that are currently recorded (set by c06.generate): grid configurations that are
 # exactly a recorded witness carry `known_id` and are left out while the finding is recorded (the corpus replays them)
 KNOWN_IDS: set = set()
@@ -43,6 +48,8 @@ EXTRA_CLASSES = [
     "MixedDtype",  # real-valued parameters (filter, diagonal, matrix, scalar) with a complex input dtype
     "CalculusMixed",  # results of operator arithmetic between a LinearOperator and a non-linear Operator
     "WrappedOptions",  # every option of the numpy functions wrapped by linop_from_function (Pad, Sum, Reshape, Transpose): rejected or linear
+    "NoJit",  # elementary operators built with jit=False: every call runs the Python code of the class (state kept between calls shows)
+    "DtypeSweep",  # one small configuration of the elementary classes in each of float32 / float64 / complex64 / complex128
     "OutsideLinop",  # LinearOperators constructed outside scico.linop: SquaredL2Loss.hessian, flax PaddedCircularConvolve
 ]
 
@@ -85,12 +92,15 @@ def _extra_grid(name, rng):
     if name == "WrappedOptions":
         out = []
         for dt in ("float64", "complex128"):
+            cx = dt == "complex128"  # (complex: a subset - the option handling does not depend on the dtype)
             for mode in ("constant", "edge", "linear_ramp", "maximum", "mean", "median", "minimum", "reflect", "symmetric", "wrap", "empty"):
-                out.append({"op": "Pad", "shape": [4], "dtype": dt, "kwargs": {"mode": mode}})
+                if not cx or mode in ("maximum", "mean", "reflect", "empty"):
+                    out.append({"op": "Pad", "shape": [4], "dtype": dt, "kwargs": {"mode": mode}})
             for kw in ({"mode": "constant", "constant_values": 0.0}, {"mode": "constant", "constant_values": 2.0}, {"mode": "linear_ramp", "end_values": 0.0},
                        {"mode": "linear_ramp", "end_values": 1.0}, {"mode": "mean", "stat_length": 2}, {"mode": "reflect", "reflect_type": "odd"},
                        {"mode": "symmetric", "reflect_type": "odd"}, {"mode": "maximum", "stat_length": 2}):
-                out.append({"op": "Pad", "shape": [4], "dtype": dt, "kwargs": kw})
+                if not cx or "reflect_type" in kw:
+                    out.append({"op": "Pad", "shape": [4], "dtype": dt, "kwargs": kw})
             for kw in ({}, {"initial": 0.0}, {"where": [True, False, True, True]}, {"axis": 0, "keepdims": True}, {"dtype": "complex128"}):
                 out.append({"op": "Sum", "shape": [4], "dtype": dt, "kwargs": kw})
             for kw in ({"initial": 1.5}, {"axis": 0, "keepdims": True, "initial": 2.0}):
@@ -99,6 +109,19 @@ def _extra_grid(name, rng):
             out.append({"op": "Reshape", "shape": [2, 3], "dtype": dt, "args": [[6]], "kwargs": {}})
             out.append({"op": "Transpose", "shape": [2, 3, 2], "dtype": dt, "args": [[2, 0, 1]], "kwargs": {}})
             out.append({"op": "Transpose", "shape": [2, 3], "dtype": dt, "args": [], "kwargs": {}})
+        return out
+    if name == "NoJit":
+        return [{"kind": k, "shape": [3, 4], "dtype": dt, "jit": False} for k, dt in
+                (("circconv", "float64"), ("circconv", "complex128"), ("convolve", "float64"), ("safd", "float64"), ("fd", "float64"), ("diagonal", "complex128"),
+                 ("dft", "complex128"), ("matrix", "float64"), ("pad", "float64"), ("sum", "float64"), ("slice", "float64"), ("vstack", "float64"))]
+    if name == "DtypeSweep":
+        out = []
+        for kind in ("transpose", "reshape", "sum", "slice", "crop", "pad", "identity", "scaledidentity", "diagonal", "safd", "fd", "circconv", "convolve",
+                     "dft", "matrix", "vstack"):
+            for dt in ("float32", "float64", "complex64", "complex128"):
+                if kind == "dft" and not dt.startswith("complex"):
+                    continue
+                out.append({"kind": kind, "shape": [3, 4], "dtype": dt})
         return out
     if name == "OutsideLinop":
         return [
@@ -284,6 +307,46 @@ def build(name, c):
         except ValueError as e:
             # the constructor rejects the option: the object is never presented as a linear operator
             raise NotPresentedAsLinear(f"rejected:{type(e).__name__}") from e
+    if name in ("DtypeSweep", "NoJit"):
+        k = c["kind"]
+        jit = c.get("jit", True)
+        n = int(np.prod(shape))
+        ramp = (np.arange(1, n + 1) / 4).reshape(shape)
+        val = jnp.asarray((ramp * ((1 - 0.5j) if cplx else 1)).astype(dt))
+        h = jnp.asarray((np.array([[1.0, -0.5], [0.25, 2.0]]) * ((1 + 0.5j) if cplx else 1)).astype(dt))
+        if k == "transpose":
+            return linop.Transpose(shape, (1, 0), input_dtype=dt, jit=jit)
+        if k == "reshape":
+            return linop.Reshape(shape, (shape[1], shape[0]), input_dtype=dt, jit=jit)
+        if k == "sum":
+            return linop.Sum(shape, axis=0, input_dtype=dt, jit=jit)
+        if k == "slice":
+            return linop.Slice(np.s_[1:, ::2], shape, input_dtype=dt, jit=jit)
+        if k == "crop":
+            return linop.Crop(((1, 0), (1, 1)), shape, input_dtype=dt, jit=jit)
+        if k == "pad":
+            return linop.Pad(shape, input_dtype=dt, pad_width=((1, 0), (2, 1)), mode="edge", jit=jit)
+        if k == "identity":
+            return linop.Identity(shape, input_dtype=dt)
+        if k == "scaledidentity":
+            return linop.ScaledIdentity(dt(2.5), shape, input_dtype=dt)
+        if k == "diagonal":
+            return linop.Diagonal(val, input_dtype=dt, jit=jit)
+        if k == "safd":
+            return linop.SingleAxisFiniteDifference(shape, input_dtype=dt, axis=1, circular=True, jit=jit)
+        if k == "fd":
+            return linop.FiniteDifference(shape, input_dtype=dt, append=0, jit=jit)
+        if k == "circconv":
+            return linop.CircularConvolve(h, shape, input_dtype=dt, jit=jit)
+        if k == "convolve":
+            return linop.Convolve(h, shape, input_dtype=dt, mode="same", jit=jit)
+        if k == "dft":
+            return _dft(linop, shape, dt, jit)
+        if k == "matrix":
+            return linop.MatrixOperator(jnp.asarray((np.arange(6).reshape(2, 3) / 4 - 0.5).astype(dt) * ((1 + 1j) if cplx else 1)), input_cols=shape[1])
+        if k == "vstack":
+            return linop.VerticalStack((linop.Identity(shape, input_dtype=dt), linop.ScaledIdentity(dt(-1.0), shape, input_dtype=dt)))
+        raise KeyError(k)
     if name == "OutsideLinop":
         k = c["kind"]
         if k.startswith("sql2_hessian"):
@@ -364,6 +427,19 @@ def build(name, c):
     raise KeyError(name)
 
 
+def _dft(linop, shape, dt, jit=True):
+    """DFT declares complex64; other widths through the jit-free generic route if the class has no dtype argument"""
+    import inspect
+
+    if "input_dtype" in inspect.signature(linop.DFT.__init__).parameters:
+        return linop.DFT(shape, input_dtype=dt, jit=jit)
+    import jax.numpy as jnp
+
+    if np.dtype(dt) == np.complex64:
+        return linop.DFT(shape, jit=jit)
+    return linop.LinearOperator(shape, output_shape=shape, eval_fn=lambda x: jnp.fft.fftn(x), input_dtype=dt, output_dtype=dt)
+
+
 def _dense_adj(f, shape, dt):
     """explicit adjoint of a linear map through its dense matrix (jax.linear_transpose cannot transpose a `scan` with a
     carry, so operators built on one have to supply `adj_fn`)"""
@@ -397,8 +473,11 @@ def enumerate_ops(rng, thorough, per_class):
             sel = set(rng.choice(len(cfgs), size=per_class, replace=False).tolist())
             # configurations the grid marks as indispensable (e.g. mixed real/complex dtypes) are always included
             sel |= {i for i, c in enumerate(cfgs) if isinstance(c, dict) and c.get("must")}
-            if name in ("MixedDtype", "CalculusMixed", "Derived", "GenericLinearOperator", "OutsideLinop", "WrappedOptions"):
+            if name in ("MixedDtype", "CalculusMixed", "Derived", "GenericLinearOperator", "OutsideLinop", "WrappedOptions", "NoJit"):
                 sel = set(range(len(cfgs)))  # small hand-made grids: always complete
+            if name in QUICK_SHARE:
+                k = max(per_class, int(round(QUICK_SHARE[name] * len(cfgs))))
+                sel = set(rng.choice(len(cfgs), size=k, replace=False).tolist())
             cfgs = [cfgs[i] for i in sorted(sel)]
         for c in cfgs:
             if isinstance(c, dict) and c.get("known_id") in KNOWN_IDS:
